@@ -123,8 +123,12 @@ def run(ctx):
                     fails.append("tl2-differs")
             if not fails:
                 continue
-            # stable signatures for the known causes (classification only; the verdict above is Go's own)
-            if KEY_OBJECT.search(jtxt) and ("invalid-json" in fails or "reread-rejected" in fails):
+            # stable signatures for the known causes (classification only; the verdict above is Go's own).  A failure is
+            # attributed to a known cause only when the writer's text is the one the model predicts for this value
+            same_text = " ".join(mf[:2]) == g
+            if not same_text:
+                sig = f"C05:roundtrip:{u.name}:{n}:{'+'.join(fails)}"
+            elif KEY_OBJECT.search(jtxt) and ("invalid-json" in fails or "reread-rejected" in fails):
                 sig = "C05:F9:non-utf8-dict-key"
             elif "4" in codes and valid == "1":
                 sig = "C05:dict-key-escape-not-unescaped"
@@ -168,7 +172,7 @@ def run(ctx):
             ctx.violation(f"{pid}:tools", "cannot build tl2gen/verifdump from /repo: " + trunc(berr, 600), {"error": berr}, no_input=True)
         if ref_err:
             ctx.violation(f"{pid}:model-build", "reference model does not build: " + trunc(ref_err, 600), {"error": ref_err}, no_input=True)
-        for name, e in unit_errors[:10]:
+        for name, e in reportable_unit_errors(unit_errors, ctx)[:10]:
             ctx.violation(f"{pid}:unit:{name}", f"schema unit {name}: {trunc(e, 600)}", {"unit": name, "error": e}, no_input=True)
         for name, l, m, g in mism[:30]:
             ctx.violation(f"{pid}:corr:{name}:{trunc(l, 60)}", f"corr:C05:json {name}: model and generated code differ on {trunc(l, 140)}: model={trunc(m, 120)} go={trunc(g, 120)}",
